@@ -441,6 +441,43 @@ func pickEngine(c *Ctx) {
 			}
 		}
 	}
+	// the first warehouse that has an object at the ware's address is the holder — whatever the object is (a zero-length
+	// file included: what it is worth is the unpacker's business, and it says corrupt); the fetch does not move on
+	for k, scheme := range []string{"ca+file", "file"} {
+		d1, d2 := filepath.Join(env.root, fmt.Sprintf("empty%d-a", k)), filepath.Join(env.root, fmt.Sprintf("empty%d-b", k))
+		op := "pick-empty-object " + scheme
+		c.EmitR(op, "skip", "skip")
+		var a1, a2 string
+		if scheme == "ca+file" {
+			for i, d := range []string{d1, d2} {
+				p := filepath.Join(d, pickHash[0:3], pickHash[3:6])
+				os.MkdirAll(p, 0755)
+				os.WriteFile(filepath.Join(p, pickHash), [][]byte{nil, []byte("Wsecond")}[i], 0644)
+			}
+			a1, a2 = "ca+file://"+d1, "ca+file://"+d2
+		} else {
+			os.MkdirAll(d1, 0755)
+			os.MkdirAll(d2, 0755)
+			os.WriteFile(filepath.Join(d1, "ware.tgz"), nil, 0644)
+			os.WriteFile(filepath.Join(d2, "ware.tgz"), []byte("Wsecond"), 0644)
+			a1, a2 = "file://"+filepath.Join(d1, "ware.tgz"), "file://"+filepath.Join(d2, "ware.tgz")
+		}
+		for _, list := range [][]api.WarehouseLocation{{api.WarehouseLocation(a1), api.WarehouseLocation(a2)}, {api.WarehouseLocation(a1)}} {
+			rd, err := util.PickReader(api.WareID{Type: "tar", Hash: pickHash}, list, false, rio.Monitor{})
+			got := ""
+			if err != nil {
+				got = "err " + catOf(err)
+			} else {
+				b, _ := io.ReadAll(rd)
+				rd.Close()
+				got = fmt.Sprintf("opened %q", b)
+			}
+			c.H("empty-object:" + strings.Fields(got)[0])
+			if got != `opened ""` {
+				c.PropFail("pick-wrong-warehouse", fmt.Sprintf("the first warehouse of %v holds a (zero-length) object at the ware's address; the fetch answers %s instead of handing out that object", list, got), op)
+			}
+		}
+	}
 	var kinds []string
 	for _, s := range []string{"file", "ca+file"} {
 		for _, cd := range []string{"missingdir", "lacking", "holding"} {
